@@ -45,6 +45,7 @@ structure Compat (T : Table) : Prop where
   nudPre : ∀ p, T.nud (preKind p) = .pre
   ledOp : ∀ o, T.led (.op o) = .infix
   infix0 : T.infixExtra = 0
+  infixSub0 : T.infixSub = 0
   inner0 : T.innerBinding = 0
   list0 : T.listBinding = 0
 
